@@ -48,14 +48,19 @@ def truth_in(p: Path, v: Any) -> bool | None:
     if isinstance(v, (MList, MSet)):
         return p.decisions.get(f'nonempty({v.ident})')
     if isinstance(v, Opaque):
-        return p.decisions.get(v.tag)
+        base = v.tag.rstrip("'")
+        for k in (v.tag, base, base + "'"):
+            if k in p.decisions:
+                return p.decisions[k]
+        return None
     return bool(v)
 
 
 def _recv(name: str, v: Any) -> bool:
     """Is the call event `name` a method call on the value v?"""
-    base = v.ident if isinstance(v, (MList, MSet)) else _tag(v)
-    return name.startswith(base + '.')
+    base = v.ident if isinstance(v, (MList, MSet)) else _tag(v).rstrip("'")
+    recv = name.rsplit('.', 1)[0].rstrip("'")
+    return recv == base
 
 
 def compile_events(p: Path, fn: str) -> list[tuple[Any, Any, tuple, int]]:
@@ -238,7 +243,7 @@ def rule_pipeline_tail(ctx: Ctx, rule: str, which: set[str] | None = None, text:
                 pat, fl, _c, idx = comps[0]
                 default_idx = idx
                 isb = [v for k, v in p.decisions.items() if k.startswith('isinstance(') and k.endswith(', bytes)') and
-                       (_tag(N) + '[0]' in k or (isinstance(N, MList) and N.ident + '[0]' in k))]
+                       (_tag(N).rstrip("'") + '[0]' in k or (isinstance(N, MList) and N.ident + '[0]' in k))]
                 if len(isb) != 1 or pat != (b'**' if isb[0] else '**'):
                     bad_def.append(f'default pattern {pat!r} with N[0] bytes={isb}')
                 d = decided_bits(p, 'flags')
